@@ -114,6 +114,21 @@ def Filter.shouldInclude : Filter → Str → Str → Str → Bool
   | .allowlist names, _, k, _ => names.contains k
   | .custom p, n, k, v => p n k v
 
+/-! ### names as bytes
+
+A Rust `String` / `&str` IS its UTF-8 bytes: `str::len`, and the `Hash` + `Eq` behind
+`HashSet<String>::contains(&str)`, work on these.  The model keeps names as code-point lists; `utf8` is the bridge
+(`Props/C17`: it is injective, so comparing code points is comparing bytes, byte for byte, and no length enters). -/
+
+/-- the bytes of a name (`str::as_bytes`) -/
+def utf8 (s : Str) : ByteArray := (String.ofList s).toByteArray
+
+/-- `str::len()`: length in BYTES -/
+def byteLen (s : Str) : Nat := (utf8 s).size
+
+/-- `str::chars().count()`: length in code points -/
+def charLen (s : Str) : Nat := s.length
+
 /-! ### state -/
 
 structure State where
@@ -316,5 +331,86 @@ def poolAfterDrop (p : PState) : List FMap :=
       match p.base.spans[i]? with
       | some m => release pool m
       | none => pool) p.pool
+
+/-! ### registry slots: the id of a closed span is handed out again
+
+`Registry::new_span` takes a slot of a `sharded_slab::Pool`; `Span::id()` is that slot's index (plus a generation).
+When a span closes, the slot's `DataInner` is cleared (its extensions, hence its `Labels`, are dropped — the
+`release` of the pool section) and the slot goes back to the free list; a later span gets it again.  Everything above
+numbers spans by creation and keeps closed spans as tombstones.  This section stores the `Labels` where the code stores
+them, in the registry slot, and reads them through the slot, as `MetricsLayer` does (`ctx.span(id)`, `extensions()`);
+`base.spans` is carried along as the creation-numbered reading, and `Props/C17` (`slots_agree`) proves that the two
+readings agree for every live span as long as the registry only hands out slots that no live span occupies.
+
+WHICH free slot is handed out (per-thread shards, local and remote free lists) is not modelled: the slot is part of
+the operation, as observed on the real registry. -/
+
+structure RState where
+  base : State := {}                            -- spans by creation number, closed ones as tombstones
+  closed : List Nat := []
+  slotOf : Nat → Nat := fun _ => 0               -- creation number ↦ registry slot
+  ext : Nat → Option FMap := fun _ => none       -- registry slot ↦ the `Labels` extension stored in it
+
+/-- `ctx.span(id)` + `extensions().get::<Labels>()` -/
+def rLookup (r : RState) : Option Nat → Option FMap
+  | none => none
+  | some pid => r.ext (r.slotOf pid)
+
+def liveR (r : RState) (id : Nat) : Bool := id < r.base.spans.length && !r.closed.contains id
+
+/-- no live span occupies the slot -/
+def slotFree (r : RState) (slot : Nat) : Bool :=
+  (List.range r.base.spans.length).all (fun id => r.closed.contains id || r.slotOf id != slot)
+
+inductive ROp
+  | new (t : Nat) (parent : Parent) (fields : List (Str × Value)) (slot : Nat)
+  | record (t : Nat) (id : Nat) (fields : List (Str × Value))
+  | enter (t : Nat) (id : Nat)
+  | exit (t : Nat) (id : Nat)
+  | close (id : Nat)
+
+def recordFn (fields : List (Str × Value)) (m : FMap) : FMap := extendFromLabelsOverwrite m (fromRecord fields)
+
+def rstep (r : RState) : ROp → RState
+  | .new t par fields slot =>
+    { r with
+      base := { r.base with spans := r.base.spans ++ [newSpanLabels fields (rLookup r (resolveParent r.base t par))] }
+      slotOf := fun i => if i = r.base.spans.length then slot else r.slotOf i
+      ext := fun s => if s = slot then some (newSpanLabels fields (rLookup r (resolveParent r.base t par))) else r.ext s }
+  | .record _ id fields =>
+    { r with
+      base := { r.base with spans := modifyAt r.base.spans id (recordFn fields) }
+      ext := fun s => if s = r.slotOf id then (r.ext s).map (recordFn fields) else r.ext s }
+  | .enter t id => { r with base := step r.base (.enter t id) }
+  | .exit t id => { r with base := step r.base (.exit t id) }
+  | .close id =>
+    if liveR r id then { r with closed := id :: r.closed, ext := fun s => if s = r.slotOf id then none else r.ext s }
+    else r
+
+/-- what the registry guarantees and the harness observes: a new span gets a slot no live span occupies; parents and
+    recorded spans are alive (a handle or a stack entry keeps them so) -/
+def legal (r : RState) : ROp → Bool
+  | .new t par _ slot =>
+    slotFree r slot && (match resolveParent r.base t par with | none => true | some pid => liveR r pid)
+  | .record _ id _ => liveR r id
+  | _ => true
+
+/-- the same operation in the creation-numbered reading (closing does nothing there) -/
+def ROp.toBase : ROp → Option Op
+  | .new t par fields _ => some (.newSpan t par fields)
+  | .record t id fields => some (.record t id fields)
+  | .enter t id => some (.enter t id)
+  | .exit t id => some (.exit t id)
+  | .close _ => none
+
+def baseStepOpt (s : State) : Option Op → State
+  | some op => step s op
+  | none => s
+
+/-- the key an emission on thread `t` gets when the current span's labels are read from its registry slot -/
+def rEmit (r : RState) (f : Filter) (t : Nat) (name : Str) (labels : List (Str × Str)) : List (Str × Str) :=
+  match rLookup r (current r.base t) with
+  | none => labels
+  | some m => if m.isEmpty then labels else enhanceLabels f name m labels
 
 end MetricsVerif.Tracing
